@@ -8,7 +8,7 @@
 //
 // Protocol (one request per line, one answer per line):
 //
-//	q  <goos>/<goarch> <term>      -> a=<size>,<align>,<offs> b=<size>,<align>,<offs> c=<size>,<align>,<fieldalign>,<ptrbytes>,<offs>
+//	q  <goos>/<goarch> <term>      -> a=<size>,<align>,<offs> b=<size>,<align>,<offs> c=<size>,<align>,<fieldalign>,<ptrbytes>,<offs> e=<size>,<align>
 //	mb <goos>/<goarch> <key> <elem> -> ks=<n> es=<n> bs=<n> a=… b=… c=…      (the three computations on the bucket struct)
 //	dl <goos>/<goarch>             -> LLVM data layout string + pointer size
 //
@@ -253,7 +253,11 @@ func (tg *tgt) three(t types.Type) string {
 		}
 	}
 	c := fmt.Sprintf("c=%d,%d,%d,%d,%s", tg.ab.Size(raw), tg.ab.Align(raw), tg.ab.FieldAlign(raw), tg.ab.PtrBytes(raw), offs(co, isStruct))
-	return a + " " + b + " " + c
+	// the descriptor that map/slice/chan/pointer/array/struct descriptors REFERENCE for an element of this type:
+	// abitype.go abiExtendedFields/abiStructFields call b.abiType(abi.PublicType(elem))
+	pub := abi.PublicType(raw)
+	e := fmt.Sprintf("e=%d,%d", tg.ab.Size(pub), tg.ab.Align(pub))
+	return a + " " + b + " " + c + " " + e
 }
 
 func handle(line string) (out string) {
